@@ -2,7 +2,7 @@
    arbitrary arithmetic instance (so they hold verbatim for binary64). *)
 From Coq Require Import ZArith QArith List Bool Sorted.
 From V Require Import Base.Num Model.StreamCore Model.Zliobaite Model.StreamCounters
-  Model.Biqf Proofs.StreamGeneric Proofs.StreamGenericX Proofs.ZlProofs Proofs.CounterProofs Proofs.BiqfProofs.
+  Model.Biqf Proofs.StreamGeneric Proofs.StreamGenericX Proofs.ZlProofs Proofs.CounterProofs Proofs.BiqfProofs Model.StreamStrategy Proofs.StreamStrategyProofs.
 Import ListNotations.
 Close Scope Q_scope.
 
@@ -83,6 +83,44 @@ Theorem C10_biqf_indices_wellformed :
 Proof. intros. apply (x_query_indices_wellformed (b_inst quant p)). apply b_query_pure. Qed.
 Print Assumptions C10_biqf_indices_wellformed.
 
+
+(* ---- strategy layer (FixedUncertainty, VariableUncertainty, ..., StreamDensityBasedAL): for every
+   utility oracle and every filter, update fed with query's result commits the per-instance
+   simulation of window AND manager, so the labels granted and the complete final state do not
+   depend on the chunking; indices are strictly increasing and in range ---- *)
+Theorem C10_strategy_chunking_invariance :
+  forall (F : Type) (N : Num F) (k : zkind) (p : zparams) (C W : Type) (wstep : W -> C -> bool * W)
+         (inp : bool -> C -> zin) (chunks : list (list C)) (s : W * zstate),
+  let mu := fun m (xs : list zin) idx => zupdate k p m (length xs) idx in
+  xprocess (squery (zquery k p) wstep inp) (supdate mu wstep inp) s chunks =
+  giter (sinst (inst k p) wstep inp) s (concat chunks).
+Proof.
+  intros. apply (strategy_chunking_invariance (inst k p) (zquery k p) mu wstep inp (fun _ => True)).
+  - apply zquery_pure.
+  - intros m xs _. apply zupdate_simulates.
+  - intros; exact I.
+  - exact I.
+Qed.
+Print Assumptions C10_strategy_chunking_invariance.
+
+Theorem C10_strategy_indices_wellformed :
+  forall (F : Type) (N : Num F) (k : zkind) (p : zparams) (C W : Type) (wstep : W -> C -> bool * W)
+         (inp : bool -> C -> zin) (s : W * zstate) (cs : list C),
+  StronglySorted lt (fst (squery (zquery k p) wstep inp s cs)) /\
+  (forall j, In j (fst (squery (zquery k p) wstep inp s cs)) -> j < length cs).
+Proof. intros. apply (strategy_indices_wellformed (inst k p)). apply zquery_pure. Qed.
+Print Assumptions C10_strategy_indices_wellformed.
+
+(* the instance used by StreamDensityBasedAL: the sliding-window density test, any distance oracle *)
+Theorem C10_density_strategy_chunking_invariance :
+  forall (F : Type) (N : Num F) (k : zkind) (p : zparams) (d : nat -> nat -> Z) (maxlen : nat)
+         (inp : bool -> nat -> zin) (chunks : list (list nat)) (s : dwin * zstate),
+  let mu := fun m (xs : list zin) idx => zupdate k p m (length xs) idx in
+  xprocess (squery (zquery k p) (ldf_step d maxlen) inp) (supdate mu (ldf_step d maxlen) inp) s chunks =
+  giter (sinst (inst k p) (ldf_step d maxlen) inp) s (concat chunks).
+Proof. intros. apply C10_strategy_chunking_invariance. Qed.
+Print Assumptions C10_density_strategy_chunking_invariance.
+
 (* non-vacuity: two chunkings of a 4-instance stream under the variable-uncertainty manager *)
 Example C10_nonvacuous :
   let p := {| zp_w := 3; zp_b := (1 # 2)%Q; zp_s := (1 # 10)%Q; zp_v := (1 # 10)%Q; zp_K := 2; zp_draws := [] |} in
@@ -106,3 +144,13 @@ Example C10_biqf_nonvacuous :
   fst (giter (b_inst quant p) s xs) = [true; true; false; true] /\
   b_hist (snd (giter (b_inst quant p) s xs)) = [(1 # 10)%Q; (5 # 10)%Q] /\ b_wf p s.
 Proof. vm_compute. repeat split; try reflexivity. auto with arith. Qed.
+
+(* non-vacuity of the density test: window of 2, points 0,5,6,1 (distances as keys): the first instance
+   never passes (empty window), 5 is a new nearest neighbour of 0, 6 of 5, 1 of nobody in the window [5;6] *)
+Example C10_density_filter_nonvacuous :
+  let pts := [0; 5; 6; 1]%Z in
+  let d := fun i j => Z.abs (nth i pts 0 - nth j pts 0)%Z in
+  let w0 := {| win := []; mind := [] |} in
+  fst (wrun (ldf_step d 2) (fun (b : bool) (c : nat) => b) w0 [0; 1; 2; 3]) = [false; true; true; false] /\
+  win (snd (wrun (ldf_step d 2) (fun (b : bool) (c : nat) => b) w0 [0; 1; 2; 3])) = [2; 3].
+Proof. vm_compute. split; reflexivity. Qed.
